@@ -120,6 +120,177 @@ def boolish(e):
         return e.get('ty') == 'bool'
     return False
 
+# ---- work lists as recursion ------------------------------------------------------------------------------------------------------------
+# `let mut W = SEEDS; while let Some(x) = W.pop() { BODY }` where BODY touches W only through `W.push(e)` / `W.extend(it)` and never leaves
+# the loop (`break`, `return`, `?`) processes exactly the elements a recursive function `f(x) { BODY[W.push(e) := f(e); continue := return] }`
+# visits when called on every seed: the same set of elements, in a different order.  The rewrite is done on the syntax tree before the crate
+# is interpreted, so that the rules written for recursive closures (C08 and its adopters) judge the synthetic function; the order of the
+# visits is not used by any rule over a recursive SCC (recursive calls are never inlined).  Anything outside this exact shape is left alone.
+WL_POPS = ('pop', 'pop_front', 'pop_back')
+WL_PUSHES = ('push', 'push_back', 'push_front')
+
+
+def _mentions(node, name):
+    if isinstance(node, dict):
+        if node.get('k') == 'Path' and node.get('path', {}).get('segs') == [name]:
+            return True
+        return any(_mentions(v, name) for v in node.values())
+    if isinstance(node, list):
+        return any(_mentions(v, name) for v in node)
+    return False
+
+
+def _has_kind(node, kinds, stop=()):
+    if isinstance(node, dict):
+        if node.get('k') in kinds:
+            return True
+        if node.get('k') in stop:
+            return False
+        return any(_has_kind(v, kinds, stop) for v in node.values())
+    if isinstance(node, list):
+        return any(_has_kind(v, kinds, stop) for v in node)
+    return False
+
+
+def _path(name, line):
+    return {'k': 'Path', 'line': line, 'path': {'segs': [name], 'generics': []}, 'qself': None}
+
+
+def _pident(name, line):
+    return {'k': 'PIdent', 'line': line, 'name': name, 'by_ref': False, 'mut': False, 'sub': None}
+
+
+def _names(node, kind, out):
+    if isinstance(node, dict):
+        if node.get('k') == kind:
+            out.add(node['name'] if kind == 'PIdent' else (node['path']['segs'][0] if len(node.get('path', {}).get('segs', [])) == 1 else None))
+        for v in node.values():
+            _names(v, kind, out)
+    elif isinstance(node, list):
+        for v in node:
+            _names(v, kind, out)
+
+
+def normalise_worklists(fn):
+    """rewrite the work-list loops of one function item in place; returns the synthetic recursive function items"""
+    import copy
+    made = []
+
+    def let_type(st):
+        if st.get('ty'):
+            return st['ty']
+        i = st.get('init') or {}
+        if i.get('k') == 'Call' and i['func'].get('k') == 'Path':
+            segs = i['func']['path']['segs']
+            if len(segs) >= 2 and segs[-1] in ('new', 'default', 'with_capacity') and segs[-2] in ('HashSet', 'BTreeSet', 'HashMap', 'BTreeMap', 'Vec'):
+                return segs[-2] + ' < _ >'
+        return '_'
+
+    def scope_types():
+        tys = {}
+        for prm in fn.get('params', []):
+            if prm['pat'].get('k') == 'PIdent':
+                tys[prm['pat']['name']] = prm['ty']
+
+        def lets(node):
+            if isinstance(node, dict):
+                if node.get('k') == 'Let' and node['pat'].get('k') == 'PIdent':
+                    t = let_type(node)
+                    tys.setdefault(node['pat']['name'], ('& mut ' + t) if node['pat'].get('mut') and not t.lstrip().startswith('&') else t)
+                for v in node.values():
+                    lets(v)
+            elif isinstance(node, list):
+                for v in node:
+                    lets(v)
+        lets(fn['body'])
+        return tys
+
+    def rewrite_body(node, W, syn, caps, top=True):
+        """returns the rewritten node, or raises ValueError when W is used in any other way"""
+        if isinstance(node, list):
+            return [rewrite_body(v, W, syn, caps, top) for v in node]
+        if not isinstance(node, dict):
+            return node
+        k = node.get('k')
+        ln = node.get('line', 0)
+        if k == 'MethodCall' and node['recv'].get('k') == 'Path' and node['recv']['path']['segs'] == [W]:
+            if node['method'] in WL_PUSHES and len(node['args']) == 1 and not _mentions(node['args'][0], W):
+                return {'k': 'Call', 'line': ln, 'func': _path(syn, ln), 'args': [rewrite_body(node['args'][0], W, syn, caps, top)] + [_path(c, ln) for c in caps]}
+            if node['method'] == 'extend' and len(node['args']) == 1 and not _mentions(node['args'][0], W):
+                call = {'k': 'Call', 'line': ln, 'func': _path(syn, ln), 'args': [_path('__wl_next', ln)] + [_path(c, ln) for c in caps]}
+                return {'k': 'For', 'line': ln, 'pat': _pident('__wl_next', ln), 'expr': rewrite_body(node['args'][0], W, syn, caps, top),
+                        'body': {'k': 'Block', 'line': ln, 'stmts': [{'k': 'ExprStmt', 'line': ln, 'expr': call, 'semi': True}]}}
+            raise ValueError('other use of the work list')
+        if k == 'Path' and node.get('path', {}).get('segs') == [W]:
+            raise ValueError('other use of the work list')
+        if k == 'Continue' and top:
+            return {'k': 'Return', 'line': ln, 'expr': None}
+        if k in ('For', 'While', 'Loop'):
+            return {kk: rewrite_body(v, W, syn, caps, False) for kk, v in node.items()}
+        if k == 'Closure':
+            return {kk: rewrite_body(v, W, syn, caps, False) for kk, v in node.items()}
+        return {kk: rewrite_body(v, W, syn, caps, top) for kk, v in node.items()}
+
+    def in_block(block):
+        stmts = block.get('stmts', [])
+        for i, st in enumerate(stmts):
+            w = st.get('expr') if st.get('k') == 'ExprStmt' else None
+            if not (w and w.get('k') == 'While' and w['cond'].get('k') == 'LetCond'):
+                continue
+            c = w['cond']
+            pe = c['expr']
+            if not (pe.get('k') == 'MethodCall' and pe['method'] in WL_POPS and not pe['args'] and pe['recv'].get('k') == 'Path' and len(pe['recv']['path']['segs']) == 1):
+                continue
+            W = pe['recv']['path']['segs'][0]
+            pat = c['pat']
+            if not (pat.get('k') == 'PTupleStruct' and pat['path']['segs'][-1] == 'Some' and len(pat['elems']) == 1 and pat['elems'][0].get('k') == 'PIdent'):
+                continue
+            x = pat['elems'][0]['name']
+            js = [j for j in range(i) if stmts[j].get('k') == 'Let' and stmts[j]['pat'].get('k') == 'PIdent' and stmts[j]['pat']['name'] == W and stmts[j].get('init')]
+            if not js:
+                continue
+            j = js[-1]
+            if any(_mentions(stmts[m], W) for m in range(j + 1, i)) or any(_mentions(stmts[m], W) for m in range(i + 1, len(stmts))):
+                continue
+            body = w['body']
+            # leaving the loop early abandons the pending elements: not a closure
+            if _has_kind(body, ('Return', 'Try')) or _has_kind(body, ('Break',), stop=('For', 'While', 'Loop')):
+                continue
+            used = set()
+            _names(body, 'Path', used)
+            bound = set()
+            _names(body, 'PIdent', bound)
+            tys = scope_types()
+            caps = sorted(n for n in used if n and n in tys and n != W and n != x and n not in bound)
+            syn = f"{fn['name']}__worklist{w.get('line', 0)}"
+            try:
+                nb = rewrite_body(copy.deepcopy(body), W, syn, caps)
+            except ValueError:
+                continue
+            ln = w.get('line', 0)
+            sfn = {'k': 'Fn', 'line': ln, 'name': syn, 'generics': '', 'vis': '', 'attrs': [], 'cfg_test': False, 'ret': '', 'body': nb, 'synthetic_of': fn['name'],
+                   'params': [{'pat': _pident(x, ln), 'ty': 'Handle < _ >'}] + [{'pat': _pident(cn, ln), 'ty': tys[cn]} for cn in caps]}
+            made.append(sfn)
+            stmts[j]['pat'] = dict(stmts[j]['pat'], mut=False)
+            call = {'k': 'Call', 'line': ln, 'func': _path(syn, ln), 'args': [_path('__wl_seed', ln)] + [_path(cn, ln) for cn in caps]}
+            stmts[i] = {'k': 'ExprStmt', 'line': ln, 'semi': True,
+                        'expr': {'k': 'For', 'line': ln, 'pat': _pident('__wl_seed', ln), 'expr': _path(W, ln),
+                                 'body': {'k': 'Block', 'line': ln, 'stmts': [{'k': 'ExprStmt', 'line': ln, 'expr': call, 'semi': True}]}}}
+
+    def walk_blocks(node):
+        if isinstance(node, dict):
+            if node.get('k') == 'Block':
+                in_block(node)
+            for v in list(node.values()):
+                walk_blocks(v)
+        elif isinstance(node, list):
+            for v in node:
+                walk_blocks(v)
+    if fn.get('body'):
+        walk_blocks(fn['body'])
+    return made
+
+
 class Crate:
     """items of the crate, organised by module, with use-tables for path resolution"""
 
@@ -132,6 +303,7 @@ class Crate:
         self.statics = []
         self.consts = {}    # qualified name -> const item (module-level)
         self.extern_alias = {}
+        self.synthetic = {}   # synthetic recursive function (work list as recursion) -> the function it was cut out of
         self._load()
 
     def _load(self):
@@ -170,6 +342,11 @@ class Crate:
                 q = f"{name}::{it['name']}"
                 it['mod'], it['file'], it['qname'] = name, file, q
                 self.fns[q] = it
+                for sf in normalise_worklists(it):
+                    sq = f"{name}::{sf['name']}"
+                    sf['mod'], sf['file'], sf['qname'] = name, file, sq
+                    self.fns[sq] = sf
+                    self.synthetic[sq] = q
             elif k == 'Impl':
                 for f in it['fns']:
                     if f.get('cfg_test'):
